@@ -96,7 +96,9 @@ def family_d():
     grep = "src/a.rs:1:fn main() {\nsrc/a.rs-2-    let x = 1;\nsrc/a.rs:3:    main();\n--\nsrc/b.rs=7=fn f()\nsrc/b.rs:9:  main()\n"
     rg = ('{"type":"begin","data":{"path":{"text":"src/a.rs"}}}\n'
           '{"type":"match","data":{"path":{"text":"src/a.rs"},"lines":{"text":"\\tfn main() { 漢 }\\n"},"line_number":1,"absolute_offset":0,"submatches":[{"match":{"text":"main"},"start":4,"end":8}]}}\n'
-          '{"type":"context","data":{"path":{"text":"src/a.rs"},"lines":{"text":"x\\n"},"line_number":2,"absolute_offset":0,"submatches":[]}}\n')
+          '{"type":"context","data":{"path":{"text":"src/a.rs"},"lines":{"text":"x\\n"},"line_number":2,"absolute_offset":0,"submatches":[]}}\n'
+          # a match spanning two lines (rg -U): one record
+          '{"type":"match","data":{"path":{"text":"src/a.rs"},"lines":{"text":"fn foo(\\n    bar: u32,\\n"},"line_number":3,"absolute_offset":0,"submatches":[{"match":{"text":"foo(\\n    bar"},"start":3,"end":15}]}}\n')
     return [("blame", ["git", "blame", "f.rs"], blame.encode()), ("grep", ["git", "grep", "-n", "main"], grep.encode()),
             ("rg", None, rg.encode())]
 
@@ -115,6 +117,24 @@ def family_e():
             out.append((head + " " + body + "\n-" + body + "\n+" + body + "z\n").encode("utf-8"))
             out.append((head + "-" + body + "\n").encode("utf-8"))
             out.append((head + "+" + body + "\n").encode("utf-8"))
+    return out
+
+
+def family_f(k):
+    """lines that bring their own hyperlinks and colours along, with commit hashes in the text and in the URL
+    (a `git log` pretty format with %x1b]8;;...): as passed-through log text and as the commit line itself"""
+    h = "0123456789abcdef0123456789abcdef01234567"
+    toks = ["deadbeef1 ", "x ", ESC + "[33m", ESC + "[m", ESC + "]8;;http://x/commit/" + h + ESC + "\\",
+            ESC + "]8;;http://x/" + h[:9] + "\x07", ESC + "]8;;" + ESC + "\\"]
+    out = []
+    for n in range(1, k + 1):
+        for combo in itertools.product(range(len(toks)), repeat=n):
+            line = "".join(toks[i] for i in combo)
+            r = term.decode(line + "\n")[0]
+            if r.broken or r.end_style != term.DEFAULT or r.end_link is not None or not any(i <= 1 for i in combo):
+                continue
+            out.append(("commit " + h + "\n" + line + "\n").encode("utf-8"))
+            out.append((ESC + "[33mcommit " + h + ESC + "[m (" + line + ")\n").encode("utf-8"))
     return out
 
 
@@ -170,7 +190,8 @@ def run_task(task):
 
 ASSUMPTIONS = [
     "inputs' own escape sequences are balanced (generated and verified with the same terminal model)",
-    "families A-D as described in the module docstring, E: hunk lines containing characters whose case mappings "
+    "families A-D as described in the module docstring, F: log lines carrying their own OSC 8 links with commit hashes "
+    "under --hyperlinks, E: hunk lines containing characters whose case mappings "
     "change their byte length; values outside them are not covered",
     "renders that crash are C03's business and are skipped here",
 ]
@@ -227,6 +248,14 @@ def main(tier):
                           ("max-line-length=3", {"max-line-length": "3"}, None),
                           ("delta-default-styles", {"_plain": True}, None)]:
         tasks.append(("E:" + label, o, None, pty, fe))
+    # F: hyperlinks added to lines which carry hyperlinks already
+    ff = family_f(4 if tier == "quick" else 5)
+    for label, o, pty in [("links", {"hyperlinks": True, "hyperlinks-commit-link-format": "http://h/{commit}"}, None),
+                          ("links,raw-commit", {"hyperlinks": True, "hyperlinks-commit-link-format": "http://h/{commit}",
+                                                "commit-style": "raw", "commit-decoration-style": "119 box"}, None),
+                          ("links,pty", {"hyperlinks": True, "hyperlinks-commit-link-format": "http://h/{commit}",
+                                         "width": None}, (24, 60))]:
+        tasks.append(("F:" + label, o, None, pty, ff))
     # D: blame / grep
     for name, caller, data in family_d():
         for o in ({}, {"hyperlinks": True}, {"hyperlinks": True, "navigate": True, "width": "20"},
